@@ -18,3 +18,26 @@ func ResetRegistries() {
 		f()
 	}
 }
+
+var fullResetFuncs []func()
+
+// RegisterFullReset is called from the generated support file of every
+// instrumented package with a function that gives every package-level variable
+// of that package its initial value again (initializers re-evaluated in the
+// package's initialization order).
+func RegisterFullReset(f func()) { fullResetFuncs = append(fullResetFuncs, f) }
+
+// CanResetGlobals reports whether the instrumented packages can be put back
+// into their initial state.
+func CanResetGlobals() bool { return len(fullResetFuncs) > 0 }
+
+// ResetAllGlobals puts every instrumented package back into the state it has
+// when the process starts. The explorers call it before every execution of a
+// program whose executions turned out not to be reproducible (package-level
+// state - a pool, a cache, a registry - surviving from one execution into the
+// next), so that every execution starts from the same state.
+func ResetAllGlobals() {
+	for _, f := range fullResetFuncs {
+		f()
+	}
+}
